@@ -32,7 +32,7 @@ def start(pid, tier, sc):
     w = max(2, vlib.NCPU // max(1, n))
     futs = [(nm, CFGS[nm][0 if tier == "quick" else 1],
              pool.submit(vlib.tlc, "IvCore.tla", CFGS[nm][0 if tier == "quick" else 1], sc, workers=w,
-                         timeout=600 if tier == "quick" else 2400, coverage=True)) for nm in names]
+                         timeout=900 if tier == "quick" else 2400, coverage=True, xmx="14g")) for nm in names]
     gen = None
     if pid in GEN_FOR:
         gen = pool.submit(vlib.tlc, "IvCore.tla", GEN[tier], sc, workers=w, timeout=300 if tier == "quick" else 1500)
